@@ -40,4 +40,34 @@ def apiSeq (out : Option (List (Vb × Offset))) (vb : Vb) : Nat :=
   | some offs => ((AMap.get? offs vb).map (·.seq)).getD 0
   | none => 0
 
+/-! ### consumer calls in flight (`hold-next` … `release` of the harness)
+
+`waitAndForward` hands the event to `consumer.ConsumeEvent` and comes back whenever the consumer does;
+`stream.Close` does not wait for listener calls in flight. The model's `ev` is atomic at ENTRY: when a
+consumer call returns is not part of the session state, and the counters and gauges the model predicts
+must therefore not depend on it. The harness markers are no-ops on every model state. -/
+
+/-- an op list with the harness's markers in it -/
+inductive Marked (α : Type)
+  | op (o : α)
+  | holdNext     -- the next consumer call will be kept in flight
+  | release      -- the call in flight returns now
+deriving Repr
+
+/-- the markers taken out -/
+def Marked.strip {α : Type} : List (Marked α) → List α
+  | [] => []
+  | .op o :: r => o :: strip r
+  | .holdNext :: r => strip r
+  | .release :: r => strip r
+
+/-- one marked op on any model state: a marker leaves it alone -/
+def stepMarked {σ α : Type} (step : σ → α → σ) (s : σ) : Marked α → σ
+  | .op o => step s o
+  | .holdNext => s
+  | .release => s
+
+def runMarked {σ α : Type} (step : σ → α → σ) (s : σ) (l : List (Marked α)) : σ :=
+  l.foldl (stepMarked step) s
+
 end GoDcp.Api
